@@ -52,28 +52,30 @@ type connModel struct {
 }
 
 type world struct {
-	srv     *miniserver.Server
-	cl      [nConns]*miniserver.Client
-	m       [nConns]*connModel
-	ids     map[string]int64
-	secrets map[int64]string
-	expired map[int64]bool
-	banned  map[string]bool
-	black   map[string]bool
-	issued  map[int64]bool // identities issued by first-connect during the run
-	keyless map[int64]bool // registered clients without a stored secret
-	dead    [nConns]bool
+	srv        *miniserver.Server
+	cl         [nConns]*miniserver.Client
+	m          [nConns]*connModel
+	ids        map[string]int64
+	secrets    map[int64]string
+	expired    map[int64]bool
+	banned     map[string]bool
+	black      map[string]bool
+	issued     map[int64]bool // identities issued by first-connect during the run
+	keyless    map[int64]bool // registered clients without a stored secret
+	dead       [nConns]bool
+	shortBlack map[string]bool
+	cidrBlack  bool
 }
 
 func newWorld() (*world, error) {
 	srv, err := miniserver.New(miniserver.Options{
-		BruteForce: &security.BruteForceConfig{MaxFailures: 100000, TimeWindow: time.Hour, BanDuration: time.Hour, PermanentBanAt: 1000000, CleanupInterval: time.Hour},
+		BruteForce: &security.BruteForceConfig{MaxFailures: 100000, TimeWindow: time.Hour, BanDuration: time.Hour, PermanentBanAt: 1000000, CleanupInterval: 20 * time.Millisecond},
 		IPRate:     &security.RateLimitConfig{Rate: 100000, Burst: 100000, TTL: time.Hour},
 	})
 	if err != nil {
 		return nil, err
 	}
-	w := &world{srv: srv, ids: map[string]int64{}, secrets: map[int64]string{}, expired: map[int64]bool{}, banned: map[string]bool{}, black: map[string]bool{}, issued: map[int64]bool{}, keyless: map[int64]bool{}}
+	w := &world{srv: srv, ids: map[string]int64{}, secrets: map[int64]string{}, expired: map[int64]bool{}, banned: map[string]bool{}, black: map[string]bool{}, issued: map[int64]bool{}, keyless: map[int64]bool{}, shortBlack: map[string]bool{}}
 	for _, name := range []string{"A", "B", "E"} {
 		c, err := srv.Cloud.GenerateAnonymousCredentials()
 		if err != nil {
@@ -170,7 +172,26 @@ func (w *world) step(a Action) (*fail, string) {
 	case "blacklist":
 		w.srv.IPM.AddToBlacklist(ips[a.IP%2], time.Hour, "verif", "verif")
 		w.black[ips[a.IP%2]] = true
+		w.shortBlack[ips[a.IP%2]] = false // re-adding an address replaces its exact entry
 		return w.invariants("blacklist")
+	case "ban-permanent":
+		w.srv.Brute.BanIP(ips[a.IP%2], 0, "verif-permanent") // duration 0 = permanent
+		w.banned[ips[a.IP%2]] = true
+		return w.invariants("ban-permanent")
+	case "blacklist-cidr":
+		w.srv.IPM.AddToBlacklist("9.9.9.0/24", time.Hour, "verif", "verif") // covers both addresses
+		w.cidrBlack = true
+		return w.invariants("blacklist-cidr")
+	case "blacklist-short":
+		// an exact entry that lapses after 25 ms: by itself it decides nothing for the model once it may
+		// have lapsed (unknown), but it must never hide another live entry or ban
+		w.srv.IPM.AddToBlacklist(ips[a.IP%2], 25*time.Millisecond, "verif-short", "verif")
+		w.shortBlack[ips[a.IP%2]] = true
+		w.black[ips[a.IP%2]] = false // ... it REPLACES a long-lived exact entry of the same address
+		return w.invariants("blacklist-short")
+	case "sleep":
+		time.Sleep(60 * time.Millisecond) // lets short entries lapse and the cleanup ticker run
+		return w.invariants("sleep")
 	case "expire":
 		id := w.ids[a.Client]
 		if _, ok := w.secrets[id]; ok && !w.expired[id] {
@@ -196,7 +217,10 @@ func (w *world) step(a Action) (*fail, string) {
 	for k := range before {
 		before[k] = w.real(k)
 	}
-	gate := w.banned[ip] || w.black[ip]
+	gate := w.banned[ip] || w.black[ip] || w.cidrBlack
+	// a short-lived exact blacklist entry may or may not have lapsed: when nothing else blocks the
+	// address the model does not know whether this message passes the gate
+	gateUnknown := !gate && w.shortBlack[ip]
 	var req *packet.HandshakeRequest
 	var raw []byte
 	allowedID := int64(0) // identity this step is allowed to authenticate as (0: none)
@@ -308,6 +332,11 @@ func (w *world) step(a Action) (*fail, string) {
 		resp = r
 	}
 	after := w.real(i)
+	if gateUnknown && resp != nil && !resp.Success && strings.HasPrefix(resp.Error, "Access denied") {
+		// the short-lived blacklist entry was still in force: the message stopped at the gate, nothing
+		// (in particular no pending challenge) was consumed
+		consumes = false
+	}
 	// (2) a message that is not allowed to authenticate never reports success and never changes state
 	success := resp != nil && resp.Success
 	switch {
@@ -479,7 +508,7 @@ func runCase(t vkit.TB, c Case) {
 }
 
 func genAction(t *rapid.T) Action {
-	kind := rapid.SampledFrom([]string{"first", "phase1", "phase1", "phase1", "phase2", "phase2", "phase2", "phase2", "phase2", "malformed", "ban", "blacklist", "expire"}).Draw(t, "kind")
+	kind := rapid.SampledFrom([]string{"first", "phase1", "phase1", "phase1", "phase2", "phase2", "phase2", "phase2", "phase2", "malformed", "ban", "blacklist", "expire", "ban-permanent", "blacklist-cidr", "blacklist-short", "sleep"}).Draw(t, "kind")
 	a := Action{Kind: kind, Conn: rapid.IntRange(0, nConns-1).Draw(t, "conn")}
 	a.Type = rapid.SampledFrom([]string{"", "control", "control", "tunnel"}).Draw(t, "type")
 	switch kind {
@@ -490,7 +519,12 @@ func genAction(t *rapid.T) Action {
 	case "phase2":
 		a.Client = rapid.SampledFrom([]string{"A", "A", "B", "B", "E", "U", "K"}).Draw(t, "client")
 		a.Resp = rapid.SampledFrom([]string{"valid", "valid", "valid", "stale", "foreign", "othersecret", "replay", "garbage", "emptykey"}).Draw(t, "resp")
-	case "ban", "blacklist":
+	case "blacklist-short", "sleep":
+		a.IP = rapid.IntRange(0, 1).Draw(t, "ip")
+		if rapid.IntRange(0, 1).Draw(t, "rare") != 0 {
+			a = Action{Kind: "phase1", Conn: a.Conn, Client: "B", Type: a.Type}
+		}
+	case "ban", "blacklist", "ban-permanent", "blacklist-cidr":
 		a.IP = rapid.IntRange(0, 1).Draw(t, "ip")
 		// keep bans rare so that most sequences still authenticate
 		if rapid.IntRange(0, 3).Draw(t, "rare") != 0 {
